@@ -237,6 +237,53 @@ def gen_case(rng, malformed=False, yaml_share=0.25, conflict=False, ctx_kind=Non
             'malformed': malformed, 'conflict': conflict}
 
 
+def gen_pattern_case(rng):
+    """pattern inputs (`~literal`, `~literal.*`, `~~…`) declared at a namespace that is a proper ANCESTOR (or the root) of other
+    namespaces holding matching tasks: a pattern reaches the tasks of exactly the declaring task's namespace, not of nested ones"""
+    classes = {}
+    prods = []
+    for i, nm in enumerate(rng.sample(['t1', 't2', 't10', 't', 'tx', 'u1'], rng.randint(2, 4))):
+        cid = f'K{i}'
+        classes[cid] = {'name': nm, 'group': rng.choice(['', '', 'g']), 'params': [{'name': 'x', 'default': 1}] if rng.random() < 0.4 else [],
+                        'inputs': [], 'abstract': False, 'kind': 'json', 'run_args': [], 'pull': [], 'in_kinds': {}, 'base': 'Task'}
+        prods.append(cid)
+    pat = rng.choice(['~t.*', '~t.*', '~t1', '~t1.*', '~~t.*', '~g:t.*', '~u.*'])
+    cons = f'K{len(classes)}'
+    classes[cons] = {'name': rng.choice(['collect', 'agg']), 'group': rng.choice(['', 'g']), 'params': [], 'inputs': [{'by': 'name', 'ref': pat}],
+                     'abstract': False, 'kind': 'json', 'run_args': [], 'pull': [], 'in_kinds': {}, 'base': 'Task'}
+    a, b_ = rng.sample(['a', 'n', 'train', 'g'], 2)
+    shape = rng.choice(['root', 'root', 'mid', 'both'])
+    near = rng.sample(prods, rng.randint(0, min(2, len(prods))))          # producers declared next to the consumer
+    pdata = {'tasks': prods}
+    fs = {}
+    if shape == 'root':
+        uses = [f'@cfg/p.json as {a}'] + ([f'@cfg/p.json as {b_}'] if rng.random() < 0.3 else []) + ([f'@cfg/p.json as {a}::{b_}'] if rng.random() < 0.3 else [])
+        fs['main.json'] = {'tasks': [cons] + near, 'uses': uses}
+        if near:
+            fs['main.json'].update({})
+        fs['p.json'] = pdata
+    elif shape == 'mid':
+        fs['main.json'] = {'uses': [f'@cfg/mid.json as {a}']}
+        fs['mid.json'] = {'tasks': [cons] + near, 'uses': [f'@cfg/p.json as {b_}'] + (['@cfg/q.json'] if rng.random() < 0.4 else [])}
+        fs['p.json'] = pdata
+        if '@cfg/q.json' in fs['mid.json']['uses']:
+            fs['q.json'] = {'tasks': [c for c in prods if c not in near][:2]}
+            if not fs['q.json']['tasks']:
+                fs['mid.json']['uses'].remove('@cfg/q.json'); del fs['q.json']
+    else:
+        # the consumer at the root AND (through a second mounting of its file) inside a namespace
+        fs['main.json'] = {'uses': ['@cfg/c.json', f'@cfg/c.json as {a}', f'@cfg/p.json as {a}::{b_}']}
+        fs['c.json'] = {'tasks': [cons] + near}
+        fs['p.json'] = pdata
+    for d in fs.values():
+        for cid in d.get('tasks', []):
+            for p_ in classes[cid]['params']:
+                if rng.random() < 0.5:
+                    d[p_['name']] = rng.choice([1, 2])
+    return {'module': gen.fresh_modname(), 'classes': classes, 'files': fs, 'main': 'main.json', 'context': None, 'ctx_kind': 'none',
+            'malformed': False, 'conflict': False, 'family': 'pattern-up'}
+
+
 # --------------------------------------------------------------------------------------------- encoding for the model
 
 def los(v):
